@@ -542,6 +542,7 @@ void stmt(struct func *, struct scope *);
 
 struct gotolabel {
 	struct block *label;
+	struct location loc;
 	bool defined;
 };
 
